@@ -1,4 +1,49 @@
-From Coq Require Import List ZArith.
-From QV Require Import Barrier.Model.
-Theorem placeholder_c11 : True. Proof. exact I. Qed.
-Print Assumptions placeholder_c11.
+(* C11 -- barrier: property theorems (statements in full; proofs in Barrier/Proofs.v).
+   Model: Barrier/Model.v, one step = one shared access of qt_barrier_enter (src/barrier/feb.c).
+   n = number of participants = max_blockers, E = episodes, sched = ANY list of thread ids. *)
+From Coq Require Import List ZArith Bool Arith.
+From QV Require Import Barrier.Model Barrier.Proofs.
+Import ListNotations.
+
+(* nobody gets past the out gate of its k-th enter (t_pas >= k), let alone returns from it (t_ep >= k),
+   before every participant has done the +1 fetch-add of its k-th enter (t_arr >= k), hence has called it *)
+Theorem barrier_safe : forall (n E : nat) (sched : list nat) (i j : nat) (ti tj : thr),
+    let s := exec (Z.of_nat n) E (init n) sched in
+    nth_error (thrs s) i = Some ti -> nth_error (thrs s) j = Some tj ->
+    (t_ep ti <= t_pas ti /\ t_pas ti <= t_arr tj /\ t_arr tj <= calls tj)%nat.
+Proof. exact barrier_safe_lemma. Qed.
+Print Assumptions barrier_safe.
+
+(* the two gates are never both full; blockers stays within 0..n (so the unsigned counter never wraps) *)
+Theorem gates_exclusive : forall (n E : nat) (sched : list nat),
+    let s := exec (Z.of_nat n) E (init n) sched in
+    in_full s && out_full s = false /\ (0 <= blockers s <= Z.of_nat n)%Z.
+Proof. exact gates_exclusive_lemma. Qed.
+Print Assumptions gates_exclusive.
+
+(* in every reachable state in which some participant has not finished its E episodes, somebody can move *)
+Theorem barrier_no_deadlock : forall (n E : nat) (sched : list nat),
+    let s := exec (Z.of_nat n) E (init n) sched in
+    all_done E s = false -> exists i, enabled (Z.of_nat n) E s i = true.
+Proof. exact barrier_no_deadlock_lemma. Qed.
+Print Assumptions barrier_no_deadlock.
+
+(* every step of every thread strictly decreases the measure ... *)
+Theorem barrier_step_decreases : forall (n E : nat) (sched : list nat) (i : nat) (s' : state),
+    step (Z.of_nat n) E (exec (Z.of_nat n) E (init n) sched) i = Some s' ->
+    (meas E s' < meas E (exec (Z.of_nat n) E (init n) sched))%nat.
+Proof. exact barrier_step_decreases_lemma. Qed.
+Print Assumptions barrier_step_decreases.
+
+(* ... so no schedule makes more than n*(10E+9) moves *)
+Theorem barrier_terminates : forall (n E : nat) (sched : list nat),
+    (moves n E (init n) sched + meas E (exec (Z.of_nat n) E (init n) sched) <= n * (E * 10 + 9))%nat.
+Proof. exact barrier_terminates_lemma. Qed.
+Print Assumptions barrier_terminates.
+
+(* and every execution prefix extends to one in which all participants returned from all E episodes
+   (with no_deadlock and step_decreases: every maximal execution ends there) *)
+Theorem barrier_completes : forall (n E : nat) (sched : list nat),
+    exists rest, all_done E (exec (Z.of_nat n) E (init n) (sched ++ rest)) = true.
+Proof. exact barrier_completes_lemma. Qed.
+Print Assumptions barrier_completes.
